@@ -12,6 +12,7 @@ THEOREMS = [
     'Sourcer.C05_shadowing_breaks_it',
     'Sourcer.C05_specification_layers_agree',
     'Tie.binders_agree',
+    'Tie.names_flags_conservative',
 ]
 TIE_MODULES = ['Tie.Binders']
 TRANSLATORS = ('binders',)
@@ -62,6 +63,21 @@ def hand_programs():
                            'templates': [('T0', ['xa'], ('seq', [('opt', ('where', CC, 2, ['xa'])), V('xa')]))]}))
     out.append(('param-recursion', {'rules': [('start', ('call', 0, [(None, ('py', 100, []))]))],
                                     'templates': [('T0', ['na'], ('choice', [('seq', [L('a'), ('call', 0, [(None, ('py', 6, ['na']))]), V('na')]), V('na')]))]}))
+    # a predicate that rejects what its operand consumed: the position is restored under repetition, option, choice and count
+    W = ('where', CC, 3, ['xa'])                                      # a letter other than the first one
+    out.append(('where-rejects-star', {'rules': [('start', ('let', 'xa', CC, ('seq', [('star', W), ('star', CC)])))], 'templates': []}))
+    out.append(('where-rejects-choice', {'rules': [('start', ('let', 'xa', CC, ('seq', [('choice', [W, ('seq', [CC, CC])]), ('star', CC)])))], 'templates': []}))
+    out.append(('where-rejects-opt', {'rules': [('start', ('let', 'xa', CC, ('seq', [('opt', W), ('opt', ('where', L('ab'), 3, ['xa'])), ('star', CC)])))], 'templates': []}))
+    out.append(('where-rejects-count', {'rules': [('start', ('let', 'xa', CC, ('seq', [('opt', ('rep', W, 102, [])), ('star', CC)])))], 'templates': []}))
+    out.append(('where-rejects-field', {'rules': [('start', ('bseq', 'start', ['xb', 'xc'], [('xa', CC), ('xb', ('star', W)), ('xc', ('star', CC))]))], 'templates': []}))
+    # == but not interchangeable argument values, passed by keyword, must not share a memo entry
+    out.append(('equal-values-keyword', {'rules': [('start', ('seq', [('call', 0, [('xa', ('py', 101, []))]), ('call', 0, [('xa', ('py', 11, []))]),
+                                                                      ('call', 0, [('xa', ('py', 101, []))])]))],
+                                         'templates': [('T0', ['xa'], ('py', 0, ['xa']))]}))
+    out.append(('equal-values-keyword-nested', {'rules': [('start', ('let', 'ya', ('py', 101, []), ('let', 'yb', ('py', 11, []), ('seq', [
+        ('call', 0, [('xa', ('py', 8, ['ya'])), ('xb', ('py', 100, []))]), ('call', 0, [('xb', ('py', 100, [])), ('xa', ('py', 8, ['yb']))]),
+        ('call', 0, [('xb', ('py', 101, [])), ('xa', ('py', 1, ['ya', 'yb']))]), ('call', 0, [('xb', ('py', 11, [])), ('xa', ('py', 1, ['ya', 'yb']))])]))))],
+                                                'templates': [('T0', ['xa', 'xb'], ('py', 1, ['xa', 'xb']))]}))
     # let inside an argument expression; argument mentions call-site names
     out.append(('arg-mentions-let', {'rules': [('start', ('let', 'xa', CC, ('call', 0, [(None, ('where', CC, 3, ['xa']))])))],
                                      'templates': [('T0', ['pa'], ('seq', [('pvar', 'pa'), ('opt', ('pvar', 'pa'))]))]}))
